@@ -16,7 +16,14 @@ order, whole-array updates (`v *= f`) included (`_content`, `_rb_state`).
 
 A test the configuration cannot decide (a test on solver state such as "is the full conjugate set present", inlined from SolveUnc._addconj) is
 taken both ways (`Run.paths`); the configuration is usable when the stores into d, v, a and the returned value are the same on every
-combination.  R9 reads the guard of the call of `addconj` wherever it lives, and the condition under which fsolve reaches it."""
+combination.  R9 reads the guard of the call of `addconj` wherever it lives, and the condition under which fsolve reaches it.
+
+(pass 4) The rigid-body part of R2 no longer reads the shape of the code (an array of its own filled on the selected columns / a masked write): it asks
+what the rigid-body rows hold in each class of frequencies W > 0, W < 0, W = 0 (`c02_world`: a selection is true, false or mixed in a class; stores
+are replayed in program order), so a mask, its index form, a vector of integration factors, np.where are one thing.  R10 closes the two limits of the
+dynamic stiffness the solvers treat apart (k_rf d = F on the rf rows, m_rb a = F on the rigid-body rows), reading what the precomputed state
+(`ikrf`, `invm`, `imrb` or whatever the use site names) holds from the methods that assign it.  R1 also refuses a frequency / force column picked at a
+position computed from the loop counter that is not the position of the stored column."""
 from __future__ import annotations
 
 import ast
@@ -97,8 +104,26 @@ class Run:
         # knows nothing about) is taken both ways.  The configuration stays usable when what is stored into d, v, a and what is returned is
         # the same on every combination; otherwise the open tests are reported as analysis errors (`problems`).
         self.open_tests = []
+        solver_, table_ = solver, dict(table)
+
+        def is_none(attr):
+            """`self.<attr> is None`, from the values the class assigns to that attribute under this configuration (None: not known)"""
+            if f"self.{attr}" in table_ or f"self.{attr} is None" in table_:
+                return None
+            keys = {k: v for k, v in table_.items() if k in ("self.unc", "self.m is None", "self.rfsize", "self.ksize", "self.rbsize", "self.elsize")}
+            try:
+                vals = _state_meaning(ctx, solver_, attr, keys)
+            except Exception:  # noqa
+                return None
+            if not vals:
+                return None
+            nones = [S.sym_name(v) == "None" for v in vals]
+            return True if all(nones) else (False if not any(nones) else None)
+
+        class _Cfg(S._ForkConfig):
+            none_oracle = staticmethod(is_none)
         try:
-            found = S.explore(ctx, self.fn, table, opts)
+            found = S.explore(ctx, self.fn, table, opts, cfg_cls=_Cfg)
         except Unsupported as e:
             tr, ev = S.run_entry(ctx, self.fn, table, opts, self.label)
             found = [([], tr, ev)]
@@ -511,6 +536,13 @@ def r1_dynamic_stiffness(ctx):
                         syms = _symbols(S.erase_idx(base))
                         if "freq" in syms or ("force" in syms and (axis >= 1 or axis == -1)):
                             fixed.append(f"{base!r}[{'..., ' if axis else ''}{sel!r}]")
+                    elif sel is not None and not is_unknown(sel) and (_symbols(sel) & run.trace.loop_syms):
+                        # a position computed from the loop counter (k - 1, k + 1, n - k): it must be the position of the column that is stored
+                        syms = _symbols(S.erase_idx(base))
+                        if "freq" in syms or ("force" in syms and (axis >= 1 or axis == -1)):
+                            tcol = _store_column(ix)
+                            if tcol is None or not _eq(tcol, sel):
+                                fixed.append(f"{base!r}[{'..., ' if axis else ''}{sel!r}] for the column {tcol!r}")
                 if not _refutable(ctx, run, not fixed, f"{run.label}: the displacement at each frequency is computed from that frequency", node, val):
                     continue
                 ctx.check(not fixed, f"{run.label}: the displacement at each frequency is computed from that frequency and that column of the force (no fixed "
@@ -595,6 +627,16 @@ def _unwrap_axis(ix):
     if u is not None and u[0].startswith("ax") and u[0][2:].isdigit() and len(u[1]) == 1 and not isinstance(u[1][0], str):
         return int(u[0][2:]), u[1][0]
     return 0, ix
+
+
+def _store_column(ix):
+    """(rows, column) -> column;  anything else -> None"""
+    u = unfn(ix) if ix is not None and not is_unknown(ix) else None
+    if u is not None and u[0] == "tuple" and len(u[1]) == 2 and not isinstance(u[1][1], str):
+        return u[1][1]
+    if u is not None and u[0] in ("ax1", "axL") and len(u[1]) == 1 and not isinstance(u[1][0], str):
+        return u[1][0]
+    return None
 
 
 def _forward(run, val, before, depth=0):
@@ -1269,11 +1311,16 @@ def r5_solvepsd(ctx):
     fr = tuple(F.sym(f"f{i}") for i in range(NF))
     pp = tuple(F.sym(f"p{i}") for i in range(NF))
     t3s = _psd_run(ctx, fn, (0, 1, 2, 3), env={"freq": fr}, opts=_psd_opts(psd_id, pp))
-    if len(t3s) != 1 or t3s[0].undecided:
+    if any(t.undecided for t in t3s):
         ctx.error("solvepsd: rms formula: the function tests something the rule cannot decide on the way to it", fn,
                   [ast.unparse(t) if not isinstance(t, ast.stmt) else type(t).__name__ for tr in t3s for t, _ in tr.undecided][:4])
         return
-    t3 = t3s[0]
+    # (several combinations of open tests return: the one judged is the one with the fewest stores; the others must return the same value)
+    t3 = min(t3s, key=lambda t: len(t.cells))
+    sig = lambda t: (_vk(_psd_ids(t, fn)[0]), [(_vk(c[1]), _vk(c[2])) for c in t.cells if c[0] == S.sym_name(_psd_ids(t, fn)[0])])      # noqa: E731
+    if any(sig(t) != sig(t3) for t in t3s):
+        ctx.error("solvepsd: rms formula: it depends on a test the rule cannot decide", fn)
+        return
     rv = _psd_ids(t3, fn)[0]
     if isinstance(rv, tuple) and len(rv) == 1:
         rv = rv[0]                         # a list built by appending in the loop over the psd list: its generic entry
@@ -1709,6 +1756,130 @@ def _reached_when(paths, names):
     return None
 
 
+# ------------------------------------------------------------------------------------------------ R10
+_LU_FACTOR = {"call:la.lu_factor", "call:scipy.linalg.lu_factor", "call:linalg.lu_factor", "call:lu_factor"}
+
+
+def _state_meaning(ctx, solver, attr, table):
+    """what `self.<attr>` holds: the value(s) the methods of the class and its base assign to it, each method evaluated on symbols under
+    `table` (a test the table leaves open is taken both ways).  Returns the list of distinct values, None when a method cannot be evaluated"""
+    cache = ctx.__dict__.setdefault("_c02_state_meaning", {})
+    key = (solver, attr, tuple(sorted(table.items())))
+    if key in cache:
+        return cache[key]
+    vals = []
+    cache[key] = None
+    for rel, cls in _classes(solver):
+        for q, f in sorted(ctx.src.mod(rel).funcs.items()):
+            if not q.startswith(cls + ".") or q.count(".") != 1:
+                continue
+            if not any(isinstance(x, ast.Attribute) and isinstance(x.ctx, ast.Store) and dotted(x) == f"self.{attr}" for x in walk_no_nested(f)):
+                continue
+            try:
+                found = S.explore(ctx, f, table, S.Opts(classes=_classes(solver), erase_T=False))
+            except Unsupported:
+                return None
+            for _, tr, ev in found:
+                if tr.raised:
+                    continue
+                v = ev.env.get(f"self.{attr}")
+                if v is None:
+                    continue
+                if is_unknown(v) or isinstance(v, tuple) or isinstance(v, S.DictValue):
+                    return None
+                if not any(_eq(v, w) for w in vals):
+                    vals.append(v)
+    cache[key] = vals
+    return vals
+
+
+def _limit_identity(ctx, run, V, K, table, text, node, detail_name):
+    """one obligation: the stored value V (subscripts erased) solves K x = F, where K is the named partition of a system matrix (or 1) and the
+    solver state V is written with (an inverse, an LU factorisation) is read from the code that computes it"""
+    keep = {"self.krf", "self.m"}
+    state = sorted(n for n in _symbols(V) if n.startswith("self.") and n not in keep)
+    meaning = {}
+    for n in state:
+        vals = _state_meaning(ctx, run.solver, n[5:], table)
+        if not vals or len(vals) != 1:
+            ctx.error(f"{text}: what `{n}` holds cannot be read from the code that assigns it", node, None if vals is None else [repr(v) for v in vals])
+            return
+        meaning[n] = S.erase_idx(vals[0])
+    try:
+        u = unfn(V)
+        if u is not None and u[0] in ("lu_solve", "solve") and len(u[1]) == 2 and not any(isinstance(a, str) for a in u[1]):
+            X, rhs = u[1]
+            nm = S.sym_name(X)
+            if u[0] == "lu_solve":
+                um = unfn(meaning[nm]) if nm in meaning else None
+                fac = um[1][0] if um is not None and um[0] in _LU_FACTOR and um[1] and not isinstance(um[1][0], str) else None
+                ok = fac is not None and _eq(fac, K) and _eq(rhs, FORCE)
+                got = {"factorisation of": repr(fac) if fac is not None else repr(meaning.get(nm, X)), "right-hand side": repr(rhs)}
+            else:
+                Xm = X.subs({k[:]: v for k, v in meaning.items()}) if meaning else X
+                ok = _eq(Xm, K) and _eq(rhs, FORCE)
+                got = {"matrix": repr(Xm), "right-hand side": repr(rhs)}
+        else:
+            if any(unfn(v) is not None and unfn(v)[0] in _LU_FACTOR for v in meaning.values()):
+                ok, got = False, {detail_name: repr(V), "state": {k: repr(v) for k, v in meaning.items()}}      # an LU object used as a number
+            else:
+                V2 = V.subs(meaning) if meaning else V
+                ok = (V2 * K).equals(FORCE)
+                got = {detail_name: repr(V2)}
+    except Unsupported as e:
+        ctx.error(f"{text}: normal form", node, str(e))
+        return
+    # (an LU factorisation is something this rule has a meaning for: what is judged for foreign atoms is the matrix that is factorised)
+    seen = [V]
+    for v in meaning.values():
+        um = unfn(v)
+        seen.append(um[1][0] if um is not None and um[0] in _LU_FACTOR and um[1] and not isinstance(um[1][0], str) else v)
+    if not _refutable(ctx, run, ok, text, node, *seen):
+        return
+    _check_once(ctx, ok, text, node, None if ok else dict(got, want=f"K x = F with K = {K!r}"), tag=("limit", detail_name))
+
+
+def r10_static_and_rigid_limits(ctx):
+    """The dynamic-stiffness equation (i W b + k - W^2 m) x = F in its two limits that the solvers treat apart: the residual-flexibility equations are
+    solved statically, k_rf d = F, and the rigid-body equations (k = b = 0) give m_rb a = F.  The solvers write both through precomputed state (an
+    inverse, an LU factorisation); what that state holds is read from the method that assigns it, so the obligation is on the product
+    state x use: whatever is stored on the rf rows of d, multiplied by k_rf, is F - and likewise for the rigid-body acceleration and m."""
+    krf, mm = F.sym("self.krf"), F.sym("self.m")
+    for fam in _families():
+        for m_none in (True, False):
+            run = _run(ctx, fam[0], m_none)
+            if not _usable(ctx, run):
+                continue
+            table = {"self.unc": not run.coupled, "self.rfsize": True, "self.ksize": True, "self.rbsize": True, "self.m is None": m_none,
+                     "self.m is not None": not m_none, "np.size(self._rb)": True, "self._rb.size": True, "len(self._rb)": True}
+            cs = run.cells("d", ("RF",))
+            if not cs or is_unknown(cs[-1][3]) or isinstance(cs[-1][3], tuple):
+                ctx.error(f"{run.label}: displacement store on the residual-flexibility rows", cs[-1][4] if cs else run.fn)
+            else:
+                try:
+                    V = S.erase_idx(_forward(run, cs[-1][3], cs[-1][5]))
+                except Unsupported as e:
+                    ctx.error(f"{run.label}: residual-flexibility displacement", cs[-1][4], str(e))
+                    V = None
+                if V is not None:
+                    _limit_identity(ctx, run, V, krf, table, f"{run.label}: the residual-flexibility equations are solved statically, k_rf d = F", cs[-1][4], "d_rf")
+            if run.solver != "SolveUnc":
+                continue          # (FreqDirect solves the rigid-body equations with the other non-rf equations: R1)
+            acs = run.cells("a", ("RB",))
+            if not acs or is_unknown(acs[-1][3]):
+                ctx.error(f"{run.label}: rigid-body acceleration store", run.fn)
+                continue
+            try:
+                Aw = World(run, "pos").rows("a", _row_selector(acs[-1][2]), None)
+                if len(Aw) != 1:
+                    raise Unsupported("not one formula")
+            except Unsupported as e:
+                ctx.error(f"{run.label}: rigid-body acceleration", acs[-1][4], str(e))
+                continue
+            _limit_identity(ctx, run, Aw[0], F.const(1) if m_none else mm, table,
+                            f"{run.label}: the rigid-body acceleration solves m_rb a = F" + (" (m is the identity)" if m_none else ""), acs[-1][4], "a_rb")
+
+
 RULES = [
     ("C02-R6", r6_paired_advanced_indices, 2),
     ("C02-R1", r1_dynamic_stiffness, 20),
@@ -1719,6 +1890,7 @@ RULES = [
     ("C02-R7", r7_every_force_counts, 2),
     ("C02-R8", r8_structure_assumption, 2),
     ("C02-R9", r9_conjugate_set_guards, 6),
+    ("C02-R10", r10_static_and_rigid_limits, 14),
 ]
 LEVEL = "other"
 EXPLANATION = ("Static: the public frequency-domain entry points are evaluated on symbols once per configuration (helpers followed, tests decided by value); "
@@ -1730,13 +1902,15 @@ MANIFEST = {
     "text": "Partial claim decided statically: (R1) the displacement stored on the dynamic rows by SolveUnc (real / complex uncoupled, m None/given) and FreqDirect "
             "(uncoupled and coupled, m None/given) is F over / solved with i W b + k - W^2 m with W = 2 pi f, and the modal path uses i W - lambda with the d-rows / "
             "v-columns of the eigenvectors; (R2) v = i W d, a = -W^2 d on every rf / dynamic partition from the displacement stored on the same rows, rigid-body "
-            "v = a/(iW), d = -a/W^2 filled exactly where W != 0; (R3) incrb / rf_disp_only honoured, decided by evaluating each option setting; "
+            "v = a/(iW), d = -a/W^2 filled exactly where W != 0 (decided per class of frequencies W > 0, W < 0, W = 0); (R3) incrb / rf_disp_only honoured, decided by evaluating each option setting; "
             "(R4) partition-space typing of every value stored on the frequency-domain paths in both SolveUnc modes; (R5) solvepsd formula, None entries and trapezoid; "
             "(R6) paired advanced indices; (R7) every force reaches the PSD accumulation (must-pass-through in the "
             "force loop: only a vanishing force PSD may skip an iteration, because the direct term drmf[:, i] bypasses the equations); (R8) a structure "
             "assumption handed to the solver of the dynamic stiffness must be derived from every matrix of H; (R9) the conditions under which addconj / delconj are applied (in SolveUnc._addconj / "
             "_delconj or wherever those calls live) are complementary, also on the whole path from fsolve to the call (the full conjugate set is "
-            "restored before every frequency solve unless it is already full). "
+            "restored before every frequency solve unless it is already full); (R10) the two limits of the dynamic stiffness that are solved apart: "
+            "what is stored on the rf rows of d times k_rf is F, the rigid-body acceleration times m_rb is F (the inverse / LU state the code uses is read "
+            "from the methods that assign it). "
             "Not decided: accuracy of the complex-mode path, singular H, library solves.",
     "note": "Trusted: CPython ast; verifier/e2_formula.py (commutative normal forms: matrix products are abstracted to scalar products), verifier/c02_sem.py "
             "(path evaluator), verifier/c02_types.py with the attribute table of verifier/ode_spaces.py (read from _BaseODE, one reason per line).",
